@@ -53,6 +53,21 @@ def jobs(tier, rng):
         for nr in (1, 2, 3):
             rp.append(dict(mols=mols, nroots=nr, method="rpa", tol=1e-6, reuse=False))
             rp.append(dict(mols=mols, nroots=nr, method="cis", tol=1e-6, reuse=False))
+    # small subspace bound (emulated memory limit): the solver has to collapse and restart its subspace
+    for mols in (["h2co"], ["h2co", "h2co_d"], ["c2h4"]):
+        for cap in (16, 10, 7):
+            for nr in (2, 3):
+                if 2 * nr < cap:
+                    rp.append(dict(mols=mols, nroots=nr, method="cis", tol=1e-7, reuse=False, maxsub=cap))
+    # orbital windows (highest n occupied x lowest m virtual orbitals), also on a batch
+    for mols in (["h2co"], ["h2co", "h2co_d"], ["h2o"]):
+        for win in (((6, 2), (3, 4), (2, 3), (1, 1), (3, 2)) if mols != ["h2o"] else ((4, 1), (2, 2), (1, 2))):
+            rp.append(dict(mols=mols, nroots=1 if win[0] * win[1] < 3 else 2, method="cis", tol=1e-7, reuse=False, window=list(win)))
+    # a second call on the same molecule object at a geometry where the orbital order changes, against a fresh object
+    for mols in (["h2co"], ["h2o"], ["c2h4"], ["nh3"]):
+        for nr in (2, 4):
+            rp.append(dict(mols=mols, nroots=nr, method="cis", tol=1e-7, reuse=True, second="rotate"))
+            rp.append(dict(mols=mols, nroots=nr, method="cis", tol=1e-7, reuse=True))
     special = out[-4:]
     if tier == "quick":
         small = [j for j in out if j["mols"] in (["h2o", "h2co"], ["h2o"], ["h2co"]) and j["nroots"] in (3, 6) and j["tol"] == 1e-6 and j["method"] == "cis" and not j["reuse"]]
@@ -103,13 +118,22 @@ def main(tier):
             for m, E in enumerate(o["energies"]):
                 if any(b < a - 1e-12 for a, b in zip(E, E[1:])) or any(e <= 0 for e in E):
                     rep.violation("energies_not_ascending_positive", {"job": j, "mol": m, "energies": E}, **fields)
-                energies[(tuple(j["mols"]), m, j["method"], j["nroots"], tol, j["reuse"])] = E
+                if not (j.get("window") or j.get("second")):      # windowed / re-oriented jobs answer a different question
+                    energies[(tuple(j["mols"]), m, j["method"], j["nroots"], tol, j["reuse"])] = E
             if "gram_dev" in o and o["gram_dev"] > 1e-8:
                 rep.violation("amplitudes_not_orthonormal", {"job": j, "gram_dev": o["gram_dev"]}, **fields)
             if "rpa_norm_dev" in o and o["rpa_norm_dev"] > 1e-8:
                 rep.violation("amplitudes_not_orthonormal", {"job": j, "rpa_norm_dev": o["rpa_norm_dev"]}, **fields)
             if "residual" in o and o["residual"] > 10 * tol:
                 rep.violation("residual_above_tolerance", {"job": j, "residual": o["residual"], "tol": tol}, **fields)
+            if "window_ref" in o:
+                for m, (E, D) in enumerate(zip(o["energies"], o["window_ref"])):
+                    if max(abs(a - b) for a, b in zip(E, D)) > 10 * tol:
+                        rep.violation("windowed_energies_differ_from_window_block_of_full_matrix", {"job": j, "mol": m, "returned": E, "reference": D}, **fields)
+            if "fresh_energies" in o:
+                for m, (E, D) in enumerate(zip(o["energies"], o["fresh_energies"])):
+                    if max(abs(a - b) for a, b in zip(E, D)) > 20 * tol:
+                        rep.violation("result_depends_on_molecule_object_history", {"job": j, "mol": m, "reused_object": E, "fresh_object": D}, **fields)
             if "dense_lowest" in o:
                 for m, (E, D) in enumerate(zip(o["energies"], o["dense_lowest"])):
                     d = max(abs(a - b) for a, b in zip(E, D))
@@ -199,7 +223,7 @@ def main(tier):
         cov = {
             "states": r.distinct + tr.distinct, "transitions": r.generated + tr.generated, "traces_validated_against_impl": len(comp), "traces_accepted": n_acc,
             "samples": [{"job": jobby[t["job"]], "events": t["ev"][:2]} for t in comp[:2]] or [{"note": "none"}],
-            "stagnation_exits_observed": n_stag, "repository_test_executions": repo_info, "relational_comparisons": n_rel, "jobs": len(js),
+            "stagnation_exits_observed": n_stag, "subspace_collapses_observed": sum(1 for t in comp for e in t["ev"] if e.get("name") == "iter" and any(e.get("collapsed") or [])), "repository_test_executions": repo_info, "relational_comparisons": n_rel, "jobs": len(js),
             "evaluations": len(js), "distinct_nontrivial": len([j for j in js if j["nroots"] > 1 or len(j["mols"]) > 1 or j["reuse"]]),
             "rule": "jobs molecule/batch x number of roots x tolerance x amplitude reuse x CIS/RPA; non-trivial = several roots, a batch or amplitude reuse", "exhaustive": tier == "thorough",
         }
